@@ -1,3 +1,8 @@
+/-
+One iteration of the main loop (`stepNode`) establishes the invariant for the new node: modified
+argument, argument-free node (`graph_insert(F, v)`), and the handlers for Sum, Product, Conj,
+Division, Conditional.
+-/
 import FfcxProofs.Lemmas.FactorizeInv
 
 namespace Ffcx.IR
